@@ -3,6 +3,7 @@
 package proc
 
 import (
+	"io"
 	"bufio"
 	"bytes"
 	"encoding/json"
@@ -596,9 +597,36 @@ func (s *Session) panicText() string {
 }
 
 // runFilter runs `fzf --filter` as a plain process (no tty needed).
+// instalments hands out its pieces one Read at a time with a pause in between, so that the
+// process on the other end of the pipe sees the input arrive in several steps.
+type instalments struct {
+	pieces [][]byte
+	pause  time.Duration
+	next   int
+}
+
+func (r *instalments) Read(p []byte) (int, error) {
+	for r.next < len(r.pieces) && len(r.pieces[r.next]) == 0 {
+		r.next++
+	}
+	if r.next >= len(r.pieces) {
+		return 0, io.EOF
+	}
+	if r.next > 0 {
+		time.Sleep(r.pause)
+	}
+	n := copy(p, r.pieces[r.next])
+	r.pieces[r.next] = r.pieces[r.next][n:]
+	return n, nil
+}
+
 func runFilterProc(t fataler, args []string, input []byte, env []string) (stdout []byte, status int) {
+	return runFilterProcFrom(t, args, bytes.NewReader(input), env)
+}
+
+func runFilterProcFrom(t fataler, args []string, input io.Reader, env []string) (stdout []byte, status int) {
 	cmd := exec.Command(fzfBin, args...)
-	cmd.Stdin = bytes.NewReader(input)
+	cmd.Stdin = input
 	cmd.Env = append([]string{"PATH=/usr/bin:/bin", "SHELL=/bin/sh", "TERM=xterm"}, env...)
 	var out, errb bytes.Buffer
 	cmd.Stdout, cmd.Stderr = &out, &errb
